@@ -9,7 +9,7 @@ ASSUMPTIONS = [
     "a disagreement between the two is reported as machinery failure",
     "patterns are rendered by TLC from ASTs of bounded depth; test strings are all strings up to length 3 over {a,b,c,0,-,space,]}",
 ]
-SIGMA = ["a", "b", "c", "0", "-", " ", "]"]
+SIGMA = ["a", "b", "c", "0", "-", " ", "]", "$", "["]
 
 
 def gen_cfg(depth):
